@@ -5,7 +5,7 @@ The checks never run this script; they compare the summaries re-derived from /re
 import sys, os, json, re
 sys.path.insert(0, '/verif')
 from sa.facts import Crate
-from sa import extract, summary, sites, rules_sem
+from sa import rules_models, extract, summary, sites, rules_sem
 
 def props_for(path):
     p = set()
@@ -50,8 +50,11 @@ def main():
             continue
         if b.path == '<arrival::arrival_curve_prefix::ArrivalCurvePrefix as arrival::ArrivalBound>::steps_iter':
             continue    # known finding (yields 0 first): reported by STEP-NONZERO, never pinned as a reference
-        s, _ = summary.summarise(c, b)
+        s, ev_ = summary.summarise(c, b)
         entry = dict(path=b.path, props=ps, summary=s.split('\n'))
+        st = getattr(ev_, 'struct', None)
+        if st is not None and rules_models.struct_ok(st):
+            entry['struct'] = repr(st)   # cases and effects as terms (loop-free functions): semantic fall-back of REF
         if str(b.raw.get('vis', '')).startswith('Restricted') and not b.raw.get('impl_trait') and not (b.raw.get('trait') and not b.raw.get('impl')):
             entry['private'] = True     # a private helper: if it disappears, its callers' summaries cover the behaviour
         cs = rules_sem.pure_lin_cases(c, b.path, allow_calls=True)
